@@ -32,19 +32,20 @@ func main() {
 	seed := flag.Int("seed", 0, "solver seed")
 	list := flag.Bool("list", false, "list obligations only")
 	noEvidence := flag.Bool("no-evidence", false, "do not write the evidence file")
+	devContracts := flag.Bool("dev", false, "use /verif/contracts/verif_contracts.go even if the repo has its own copy (development)")
 	flag.Parse()
 	if s := os.Getenv("VERIF_SEED"); s != "" && *seed == 0 {
 		fmt.Sscan(s, seed)
 	}
 	start := time.Now()
-	p, err := loadProgram(*repo, filepath.Join(*verifDir, "contracts/verif_contracts.go"))
+	p, err := loadProgram(*repo, filepath.Join(*verifDir, "contracts/verif_contracts.go"), *devContracts)
 	if err != nil {
 		fmt.Fprintln(os.Stderr, "govc: load error:", err)
 		os.Exit(2)
 	}
 	p.registerTags()
 	cfile := filepath.Join(*repo, "pkg/ggql/verif_contracts.go")
-	if _, err := os.Stat(cfile); err != nil {
+	if _, err := os.Stat(cfile); err != nil || *devContracts {
 		cfile = filepath.Join(*verifDir, "contracts/verif_contracts.go")
 	}
 	if err := p.parseContracts(cfile, nil); err != nil {
